@@ -12,17 +12,17 @@ theorem rel_some {sch : Schema} {t n : Str} {rel : RelDef} (h : sch.rel t n = so
   simp at h2
   exact ⟨h1, h2.1, h2.2⟩
 
-theorem mem_related_toOne {db : DB} {rel : RelDef} {r : Row} {fk : Str} (hk : rel.kind = .toOne fk) (x : Row) :
-    x ∈ relatedRows db rel r ↔ ∃ k, r.int fk = some k ∧ x ∈ db.table rel.dst ∧ idOf x = some k := by
+theorem mem_related_toOne {db : DB} {rel : RelDef} {r : Row} {fk key : Str} (hk : rel.kind = .toOne fk key) (x : Row) :
+    x ∈ relatedRows db rel r ↔ ∃ k, r.int fk = some k ∧ x ∈ db.table rel.dst ∧ x.int key = some k := by
   unfold relatedRows
   rw [hk]
   cases h : r.int fk <;> simp [h]
 
-theorem mem_related_toMany {db : DB} {rel : RelDef} {r : Row} {cfk : Str} (hk : rel.kind = .toMany cfk) (x : Row) :
-    x ∈ relatedRows db rel r ↔ ∃ k, idOf r = some k ∧ x ∈ db.table rel.dst ∧ x.int cfk = some k := by
+theorem mem_related_toMany {db : DB} {rel : RelDef} {r : Row} {cfk key : Str} (hk : rel.kind = .toMany cfk key) (x : Row) :
+    x ∈ relatedRows db rel r ↔ ∃ k, r.int key = some k ∧ x ∈ db.table rel.dst ∧ x.int cfk = some k := by
   unfold relatedRows
   rw [hk]
-  cases h : idOf r <;> simp
+  cases h : r.int key <;> simp [h]
 
 theorem mem_related_m2m {db : DB} {rel : RelDef} {r : Row} {link sc dc : Str} (hk : rel.kind = .m2m link sc dc) (x : Row) :
     x ∈ relatedRows db rel r ↔ ∃ k i, idOf r = some k ∧ x ∈ db.table rel.dst ∧ idOf x = some i ∧
@@ -44,15 +44,15 @@ theorem mem_related_m2m {db : DB} {rel : RelDef} {r : Row} {link sc dc : Str} (h
 
 theorem related_sub {db : DB} {rel : RelDef} {r x : Row} (h : x ∈ relatedRows db rel r) : x ∈ db.table rel.dst := by
   cases hk : rel.kind with
-  | toOne fk => rw [mem_related_toOne hk] at h; obtain ⟨_, _, h, _⟩ := h; exact h
-  | toMany fk => rw [mem_related_toMany hk] at h; obtain ⟨_, _, h, _⟩ := h; exact h
+  | toOne fk key => rw [mem_related_toOne hk] at h; obtain ⟨_, _, h, _⟩ := h; exact h
+  | toMany fk key => rw [mem_related_toMany hk] at h; obtain ⟨_, _, h, _⟩ := h; exact h
   | m2m l s d => rw [mem_related_m2m hk] at h; obtain ⟨_, _, _, h, _⟩ := h; exact h
 
 theorem inverseOf_some {sch : Schema} {rel inv : RelDef} (h : inverseOf sch rel = some inv) :
     inv ∈ sch ∧ inv.src = rel.dst ∧ inv.dst = rel.src ∧
     (match rel.kind, inv.kind with
-     | .toOne fk, .toMany cfk => fk = cfk
-     | .toMany cfk, .toOne fk => fk = cfk
+     | .toOne fk key, .toMany cfk key' => fk = cfk ∧ key = key'
+     | .toMany cfk key', .toOne fk key => fk = cfk ∧ key = key'
      | .m2m l s d, .m2m l' s' d' => l = l' ∧ s = d' ∧ d = s'
      | _, _ => False) := by
   unfold inverseOf at h
@@ -68,19 +68,19 @@ theorem related_symm {sch : Schema} {db : DB} {rel inv : RelDef} (hi : inverseOf
     y ∈ relatedRows db rel r ↔ r ∈ relatedRows db inv y := by
   obtain ⟨_, hsrc, hdst, hk⟩ := inverseOf_some hi
   cases hk1 : rel.kind with
-  | toOne fk =>
+  | toOne fk key =>
     cases hk2 : inv.kind with
-    | toMany cfk =>
-      rw [hk1, hk2] at hk; simp at hk; subst hk
+    | toMany cfk key' =>
+      rw [hk1, hk2] at hk; simp at hk; obtain ⟨rfl, rfl⟩ := hk
       rw [mem_related_toOne hk1, mem_related_toMany hk2, hdst]
       constructor
       · rintro ⟨k, h1, _, h3⟩; exact ⟨k, h3, hr, h1⟩
       · rintro ⟨k, h1, _, h3⟩; exact ⟨k, h3, hy, h1⟩
     | _ => rw [hk1, hk2] at hk; simp at hk
-  | toMany cfk =>
+  | toMany cfk key' =>
     cases hk2 : inv.kind with
-    | toOne fk =>
-      rw [hk1, hk2] at hk; simp at hk; subst hk
+    | toOne fk key =>
+      rw [hk1, hk2] at hk; simp at hk; obtain ⟨rfl, rfl⟩ := hk
       rw [mem_related_toMany hk1, mem_related_toOne hk2, hdst]
       constructor
       · rintro ⟨k, h1, _, h3⟩; exact ⟨k, h3, hr, h1⟩
@@ -241,7 +241,8 @@ theorem reverse_symm (sch : Schema) (db : DB) (hs : SchOk sch) (root : Str) (seg
             exact ⟨y, (related_symm hi r y (hrs ▸ hr) hyt).2 hry, (ih rel.dst back' hrec y hyt).2 hy⟩
 
 
-/-- database hypothesis in propositional form: every row has an id, ids are unique within a table -/
+/-- database hypothesis in propositional form: every row has an id, ids are unique within a table (Django identifies the
+    outer row of a correlated sub-query by `OuterRef("pk")`, whatever key the relations reference) -/
 structure IdsOk (db : DB) : Prop where
   hasId : ∀ t r, r ∈ db.table t → ∃ k, idOf r = some k
   uniq : ∀ t k, ((db.table t).filter (fun x => idOf x == some k)).length ≤ 1
@@ -281,7 +282,7 @@ def toOneVia (sch : Schema) : Str → List Str → Option Str
       match sch.rel t s with
       | some rel =>
           (match rel.kind with
-           | .toOne _ => toOneVia sch rel.dst rest
+           | .toOne _ _ => toOneVia sch rel.dst rest
            | _ => none)
       | none => none
 
@@ -296,8 +297,8 @@ theorem navTo_fst (sch : Schema) (db : DB) (t : Str) (ro : Option Row) (p : List
     | some rel =>
       simp only
       cases rel.kind with
-      | toOne fk => simp only; exact ih _ _
-      | toMany _ => simp
+      | toOne fk key => simp only; exact ih _ _
+      | toMany _ _ => simp
       | m2m _ _ _ => simp
 
 theorem toOneVia_tblVia (sch : Schema) (t t' : Str) (p : List Str) (h : toOneVia sch t p = some t') :
@@ -312,8 +313,8 @@ theorem toOneVia_tblVia (sch : Schema) (t t' : Str) (p : List Str) (h : toOneVia
     | some rel =>
       simp only [hr] at h
       cases hk : rel.kind with
-      | toOne fk => simp only [hk] at h; exact ih _ h
-      | toMany _ => simp [hk] at h
+      | toOne fk key => simp only [hk] at h; exact ih _ h
+      | toMany _ _ => simp [hk] at h
       | m2m _ _ _ => simp [hk] at h
 
 theorem navTo_none (sch : Schema) (db : DB) (t t' : Str) (p : List Str) (row : Option Row)
@@ -327,15 +328,22 @@ theorem navTo_none (sch : Schema) (db : DB) (t t' : Str) (p : List Str) (row : O
     | some rel =>
       simp only [hr] at h
       cases hk : rel.kind with
-      | toOne fk => simp only [hk] at h; exact ih _ h
-      | toMany _ => simp [hk] at h
+      | toOne fk key => simp only [hk] at h; exact ih _ h
+      | toMany _ _ => simp [hk] at h
       | m2m _ _ _ => simp [hk] at h
 
-theorem related_toOne_le {db : DB} (hd : IdsOk db) {rel : RelDef} {fk : Str} (hk : rel.kind = .toOne fk) (r : Row) :
+/-- key hypothesis in propositional form: the key a to-one relation references (the primary key "id" or a natural key) is
+    unique among the rows of the target table that have it (rows whose key is NULL are related to nothing) -/
+def KeysOk (sch : Schema) (db : DB) : Prop :=
+  ∀ rel fk key, rel ∈ sch → rel.kind = .toOne fk key → ∀ k,
+    ((db.table rel.dst).filter (fun x => x.int key == some k)).length ≤ 1
+
+theorem related_toOne_le {sch : Schema} {db : DB} (hu : KeysOk sch db) {rel : RelDef} (hm : rel ∈ sch) {fk key : Str}
+    (hk : rel.kind = .toOne fk key) (r : Row) :
     (relatedRows db rel r).length ≤ 1 := by
   simp only [relatedRows, hk]
   split
-  · exact hd.uniq rel.dst _
+  · exact hu rel fk key hm hk _
   · simp
 
 theorem eq_head?_toList {α} {l : List α} (h : l.length ≤ 1) : l = l.head?.toList := by
@@ -344,8 +352,9 @@ theorem eq_head?_toList {α} {l : List α} (h : l.length ≤ 1) : l = l.head?.to
   | [x], _ => rfl
   | _ :: _ :: _, h => simp at h
 
-/-- along a to-one path the rows reached are the row `navTo` finds (or none) -/
-theorem navTo_rowsVia (sch : Schema) (db : DB) (hd : IdsOk db) (t t' : Str) (r : Row) (p : List Str) (row : Option Row)
+/-- along a to-one path the rows reached are the row `navTo` finds (or none) — THE place where uniqueness of the referenced
+    keys is used: `navTo` takes the first related row, `rowsVia` all of them -/
+theorem navTo_rowsVia (sch : Schema) (db : DB) (hu : KeysOk sch db) (t t' : Str) (r : Row) (p : List Str) (row : Option Row)
     (h : navTo sch db t (some r) p = some (t', row)) : rowsVia sch db t r p = row.toList := by
   induction p generalizing t r with
   | nil => simp [navTo] at h; simp [rowsVia, ← h.2]
@@ -357,9 +366,9 @@ theorem navTo_rowsVia (sch : Schema) (db : DB) (hd : IdsOk db) (t t' : Str) (r :
     | some rel =>
       simp only [hr] at h ⊢
       cases hk : rel.kind with
-      | toOne fk =>
+      | toOne fk key =>
         simp only [hk] at h
-        rw [eq_head?_toList (related_toOne_le hd hk r)]
+        rw [eq_head?_toList (related_toOne_le hu (rel_some hr).1 hk r)]
         cases hh : (relatedRows db rel r).head? with
         | none =>
           rw [hh] at h
@@ -367,18 +376,18 @@ theorem navTo_rowsVia (sch : Schema) (db : DB) (hd : IdsOk db) (t t' : Str) (r :
         | some y =>
           rw [hh] at h
           simp [ih _ _ h]
-      | toMany _ => simp [hk] at h
+      | toMany _ _ => simp [hk] at h
       | m2m _ _ _ => simp [hk] at h
 
-theorem collRows_rows (sch : Schema) (db : DB) (hd : IdsOk db) (t tm : Str) (r : Row) (path : List Str) (coll : Str)
+theorem collRows_rows (sch : Schema) (db : DB) (hu : KeysOk sch db) (t tm : Str) (r : Row) (path : List Str) (coll : Str)
     (row : Option Row) (rel : RelDef) (hn : navTo sch db t (some r) path = some (tm, row)) (hr : sch.rel tm coll = some rel)
     (h2 : tblVia sch t path = some tm) :
     row.elim [] (relatedRows db rel) = rowsVia sch db t r (path ++ [coll]) := by
-  rw [rowsVia_append sch db t tm r path [coll] h2, navTo_rowsVia sch db hd t tm r path row hn]
+  rw [rowsVia_append sch db t tm r path [coll] h2, navTo_rowsVia sch db hu t tm r path row hn]
   cases row <;> simp [rowsVia_single sch db tm coll _ rel hr]
 
 /-- what `collRows` computes, in terms of the generic forward path -/
-theorem collRows_some (sch : Schema) (db : DB) (hd : IdsOk db) (t t' : Str) (r : Row) (path : List Str) (coll : Str)
+theorem collRows_some (sch : Schema) (db : DB) (hu : KeysOk sch db) (t t' : Str) (r : Row) (path : List Str) (coll : Str)
     (rows : List Row) (h : collRows sch db t r path coll = some (t', rows)) :
     ∃ tm rel, toOneVia sch t path = some tm ∧ sch.rel tm coll = some rel ∧ t' = rel.dst ∧
       rows = rowsVia sch db t r (path ++ [coll]) ∧ tblVia sch t (path ++ [coll]) = some t' := by
@@ -394,7 +403,7 @@ theorem collRows_some (sch : Schema) (db : DB) (hd : IdsOk db) (t t' : Str) (r :
     | some rel =>
       simp only [hr] at h
       have h2 := toOneVia_tblVia sch t tm path h1
-      have hrows := collRows_rows sch db hd t tm r path coll row rel hn hr h2
+      have hrows := collRows_rows sch db hu t tm r path coll row rel hn hr h2
       have h3 : tblVia sch t (path ++ [coll]) = some rel.dst := by
         rw [tblVia_append, h2]; simp [tblVia, hr]
       have key : some (rel.dst, row.elim [] (relatedRows db rel)) = some (t', rows) →
@@ -404,8 +413,8 @@ theorem collRows_some (sch : Schema) (db : DB) (hd : IdsOk db) (t t' : Str) (r :
         simp only [Option.some.injEq, Prod.mk.injEq] at he
         exact ⟨tm, rel, h1, hr, he.1.symm, by rw [← he.2, hrows], he.1 ▸ h3⟩
       cases hk : rel.kind with
-      | toOne fk => simp [hk] at h
-      | toMany _ =>
+      | toOne fk key => simp [hk] at h
+      | toMany _ _ =>
         simp only [hk] at h
         apply key
         cases row <;> exact h
@@ -513,7 +522,7 @@ def collTarget (sch : Schema) (t : Str) (path : List Str) (coll : Str) : Option 
       (match sch.rel tm coll with
        | some rel =>
            (match rel.kind with
-            | .toOne _ => none
+            | .toOne _ _ => none
             | _ => some rel.dst)
        | none => none)
   | none => none
